@@ -637,9 +637,9 @@ func c13RunTq(t *testing.T, stats *VStats) {
 	c13TqSchedule(t, s, stats, 1, func(sc *c13Sched) { sc.script(r.Fork(), c13ScriptF2()...) })
 	stats.Add("tq.schedules.scripted", 2)
 
-	n := 150
+	n := 400
 	if VThorough() {
-		n = 1500
+		n = 8000
 	}
 	n = VEnvInt("VERIF_C13_TQ_SCHEDULES", n)
 	for i := 0; i < n; i++ {
@@ -668,6 +668,7 @@ func TestVerifC13(t *testing.T) {
 	}
 	if only == "" || only == "ep" {
 		c13RunEp(t, stats)
+		c13RunEpConcurrent(t, stats)
 	}
 	if only == "" || only == "seq" {
 		c13RunTrk(t, stats)
